@@ -422,6 +422,19 @@ impl World {
             },
         };
         if res == "panic" {
+            // panics are only legitimate after the caller broke a contract: `consume(amt)` beyond what
+            // `fill_buf` returned, or reuse of a sync stream whose fill/flush future was dropped while
+            // Pending; on the async write half only as the debug_assert that finding F15 trips
+            let expected = match w[0] {
+                "consume" | "co" => true,
+                "fill" => self.mon.rlost,
+                "wflush" => self.mon.wlost,
+                "pw" | "pfl" | "pcl" => stale_before,
+                _ => false,
+            };
+            if !expected {
+                ex.fail("C12:unexpected-panic", format!("`{line}` panicked without a preceding contract violation"));
+            }
             if half == 0 {
                 self.rpoison = true;
             } else if half == 1 {
